@@ -135,6 +135,41 @@ Section WithOracle.
   Qed.
 End WithOracle.
 
+(* ---------------------------------------------------------------- valid input never gives an error *)
+Section Totality.
+  Variable m_tan m_cos m_log : pfloat -> pfloat.
+  (* on the documented domain, with a Mercator float m in range, both functions succeed: no error for valid input *)
+  Definition pt_ok (p : point) : Prop :=
+    pt_domain p /\ ffin (merc_m m_tan m_cos m_log (plat p)) = true /\ (0 <= fval (merc_m m_tan m_cos m_log (plat p)) < 2)%R.
+  Lemma point_eid_defined p h v : 0 <= h <= 35 -> 0 <= v <= 35 -> pt_ok p -> exists i, point_eid m_tan m_cos m_log p h v = Some i.
+  Proof.
+    intros Hh Hv ((Fl & Hl & Fa & Ha) & Fm & Hm). unfold point_eid.
+    destruct (x_f_range (plon p) h Hh Fl Hl) as (x & -> & _).
+    rewrite (y_f_inrange m_tan m_cos m_log _ _ Hh Fm Hm).
+    destruct (f_f_defined (palt p) v Hv Fa) as (f & ->).
+    - apply Rle_trans with (1 := Ha). apply bpow_le. lia.
+    - eauto.
+  Qed.
+  Theorem points_api_total l h v : 0 <= h <= 35 -> 0 <= v <= 35 -> Forall pt_ok l ->
+    exists ids, points_api m_tan m_cos m_log false l h v = Ok ids /\ List.length ids = List.length l.
+  Proof.
+    intros Hh Hv F.
+    assert (E : exists r, Forall2 (fun p i => point_eid m_tan m_cos m_log p h v = Some i) l r).
+    { induction F as [|p l Hp _ (r & IH)]; [exists []; constructor|].
+      destruct (point_eid_defined p h v Hh Hv Hp) as (i & Ei). exists (i :: r). constructor; assumption. }
+    destruct E as (r & Fr). exists (map print_eid r). split.
+    - apply points_api_complete; assumption.
+    - rewrite map_length. symmetry. eapply Forall2_len, Fr.
+  Qed.
+  Theorem points_sid_api_total l z : 0 <= z <= 35 -> Forall pt_ok l ->
+    exists sids, points_sid_api m_tan m_cos m_log false l z = Ok sids /\ List.length sids = List.length l.
+  Proof.
+    intros Hz F. destruct (points_api_total l z z Hz Hz F) as (ids & E & L).
+    unfold points_sid_api. rewrite E. destruct (points_api_ok _ _ _ _ _ _ _ E) as (_ & r & Fr & ->).
+    rewrite eids_to_sids_print. eexists. split; [reflexivity|]. rewrite map_length in *. exact L.
+  Qed.
+End Totality.
+
 (* ---------------------------------------------------------------- (4) the real-number side *)
 (* a geographic point (degrees, degrees, metres) in the normalised coordinates of Voxel.inR *)
 Definition norm_pt (lon lat alt : R) : pt := (ufrac lon, wfrac lat, (alt / bpow radix2 25)%R).
